@@ -223,8 +223,8 @@ CLAIMED = {
         "bound-1/bound/bound+1 under an injected clock; the real pipeline through add_event on both backends (refused with "
         "a reason, nothing stored or broadcast); run_once with an instrumented set probing before/after every set method "
         "and at every await of the query loop, its operation sequence replayed through the Lean `observable`.",
-        "Partial: atomicity of a single set method under the GIL is trusted. One open finding (empty query result drops "
-        "the static whitelist).",
+        "Partial: atomicity of a single set method under the GIL is trusted. The empty-query-result case (static whitelist "
+        "dropped) was repaired by a fix: commit.",
         "DESIGN.md §6 C16",
     ),
     "C14": (
